@@ -31,7 +31,8 @@ RULE = ('ctx cases: random structured tables (1x1, rows with no crosses, ...) x 
         'public setter, judged against the model of the NEW content) '
         'plus white-space separators (tab, blank: the repaired defect D57) and words with blanks, and a separate '
         'inadmissible stream (newline / separator / empty / leading white space in names, equal words, separator in a word); mv cases: tables mixing IntervalPS, IntervalNumpyPS, SetPS, '
-        'AttributePS with point cells, interval cells and empty sets; fc/pc cases: concepts built by from_objects '
+        'AttributePS with point cells, interval cells, infinite end points of either sign on either side '
+        '((a, inf), (-inf, b), inf, -inf, (inf, inf), (-inf, -inf): json writes Infinity) and empty sets; fc/pc cases: concepts built by from_objects '
         'with measures, plus non-canonical ones (is_extent with a permuted subset, foreign name orders); lat cases: '
         'lattices of formal contexts (plain and monotone) and of many-valued contexts (numpy path), incl. < 3 '
         'concepts; non-trivial = table not constant and at least 2x2 (ctx/mv), >= 4 concepts (lat)')
@@ -68,11 +69,29 @@ class Doc:
         self.v = v
 
 
+INF = float('inf')
+
+
 def grid(x):
-    fr = Fraction(float(x)) * GRID
+    """float -> its multiple of 1/1024 as an int, or 'inf' / '-inf'."""
+    x = float(x)
+    if x == INF:
+        return 'inf'
+    if x == -INF:
+        return '-inf'
+    fr = Fraction(x) * GRID
     if fr.denominator != 1:
         raise ValueError('float off the 1/1024 grid: %r' % (x,))
     return int(fr)
+
+
+def fnum(g):
+    """A grid value (int or 'inf' / '-inf') as a Coq fnum."""
+    if g == 'inf':
+        return 'FPosInf'
+    if g == '-inf':
+        return 'FNegInf'
+    return '(FFin %s)' % zlit(g)
 
 
 def jv(v):
@@ -85,7 +104,7 @@ def jv(v):
     if isinstance(v, int):
         return '(JInt %s)' % zlit(v)
     if isinstance(v, float):
-        return '(JFlt %s)' % zlit(grid(v))
+        return '(JFlt %s)' % fnum(grid(v))
     if isinstance(v, str):
         return '(JStr %s)' % nstr(v)
     if isinstance(v, (list, tuple)):
@@ -251,12 +270,20 @@ def ctx_to_coq(case, o):
 
 # ------------------------------------------------------------------ many-valued contexts
 
+def q4(x):
+    return INF if x == 'inf' else (-INF if x == '-inf' else x / 4.0)
+
+
+def g4(x):
+    return x if isinstance(x, str) else x * (GRID // 4)
+
+
 def cell_value(cell):
     tag = cell[0]
     if tag == 'i':
-        return (cell[1] / 4.0, cell[2] / 4.0)
+        return (q4(cell[1]), q4(cell[2]))
     if tag == 'n':
-        return cell[1] / 4.0
+        return q4(cell[1])
     if tag == 's':
         return set(cell[1])
     return bool(cell[1])
@@ -293,7 +320,7 @@ def cellv_term(c):
         return '(CBool %s)' % coq(c[1])
     if c[0] == 's':
         return '(CSet [%s])' % '; '.join(zlit(e) for e in c[1])
-    return '(CInterval %s %s)' % (zlit(c[1]), zlit(c[2]))
+    return '(CInterval %s %s)' % (fnum(c[1]), fnum(c[2]))
 
 
 def mv_fields(K):
@@ -320,9 +347,9 @@ def mv_docs(v):
 def cell_expected(cell):
     tag = cell[0]
     if tag == 'i':
-        return ['i', cell[1] * (GRID // 4), cell[2] * (GRID // 4)]
+        return ['i', g4(cell[1]), g4(cell[2])]
     if tag == 'n':
-        return ['i', cell[1] * (GRID // 4), cell[1] * (GRID // 4)]
+        return ['i', g4(cell[1]), g4(cell[1])]
     if tag == 's':
         return ['s', sorted(cell[1])]
     return ['b', bool(cell[1])]
@@ -730,13 +757,18 @@ def mv_data(rng, max_h, max_w, interval_only=False, min_h=1):
     choices = ['IntervalPS', 'IntervalNumpyPS'] if interval_only else PTYPES + ['IntervalPS']
     ptypes = [rng.choice(choices) for _ in range(w)]
     span = rng.choice([2, 8, 40])
+    p_inf = rng.choice([0, 0, 0.15, 0.4])
     rows = []
     for _ in range(h):
         row = []
         for t in ptypes:
             if t in ('IntervalPS', 'IntervalNumpyPS'):
                 a, b = rng.randint(-span, span), rng.randint(-span, span)
-                row.append(['n', a] if rng.random() < 0.5 else ['i', min(a, b), max(a, b)])
+                if rng.random() < p_inf:        # infinite end points, either sign on either side
+                    row.append(rng.choice([['i', a, 'inf'], ['i', '-inf', b], ['i', '-inf', 'inf'], ['n', 'inf'],
+                                           ['n', '-inf'], ['i', 'inf', 'inf'], ['i', '-inf', '-inf']]))
+                else:
+                    row.append(['n', a] if rng.random() < 0.5 else ['i', min(a, b), max(a, b)])
             elif t == 'SetPS':
                 row.append(['s', sorted(rng.sample(range(-2, 5), rng.randint(0, 3)))])
             else:
